@@ -104,6 +104,29 @@ fn diff(a: &Final, b: &Final) -> String {
     }
 }
 
+const END_PROBES: usize = 4;
+fn end_probe(vt: &mut Vt, k: usize, cfg: &Cfg) {
+    match k {
+        0 => {
+            let _ = vt.feed_str("\x1b[?1049h");
+            let _ = vt.resize(cfg.cols, cfg.rows + 2);
+            let _ = vt.feed_str("x");
+        }
+        1 => {
+            let _ = vt.feed_str("\x1b[?1049l");
+            let _ = vt.resize(cfg.cols + 1, cfg.rows + 2);
+            let _ = vt.feed_str("\x1b8y");
+        }
+        2 => {
+            let _ = vt.resize(1, cfg.rows + 1);
+            let _ = vt.resize(cfg.cols + 2, cfg.rows);
+        }
+        _ => {
+            let _ = vt.feed_str("\x1b[?47h\x1b8z\x1b[?47l\x1b8w\n\n\n");
+        }
+    }
+}
+
 #[derive(Default)]
 struct Stat {
     nodes: u64,
@@ -160,6 +183,22 @@ fn explore(cfg: &Cfg, tokens: &[usize], kf_listed: bool) -> Stat {
         let got = final_of(cfg, &vt);
         if got != want && st.bad.is_none() {
             st.bad = Some((cuts.clone(), "feed_str-chunking".into(), diff(&got, &want)));
+        }
+        // the same screen is not yet the same terminal: where the internal state differs from
+        // the single call's, a few continuations that bring parked or pending things to light
+        // (the other screen entered and the terminal grown, a restore, a narrowing)
+        if got == want && st.bad.is_none() && fingerprint(&vt) != fingerprint(&whole) {
+            for k in 0..END_PROBES {
+                let mut a = rebuild(cfg, &chars, cuts);
+                let mut b = rebuild(cfg, &chars, &[n]);
+                end_probe(&mut a, k, cfg);
+                end_probe(&mut b, k, cfg);
+                let (fa, fb) = (final_of(cfg, &a), final_of(cfg, &b));
+                if fa != fb {
+                    st.bad = Some((cuts.clone(), "feed_str-chunking".into(), format!("after continuation {}: {}", k, diff(&fa, &fb))));
+                    break;
+                }
+            }
         }
     }
     // feed() one char at a time
